@@ -105,6 +105,20 @@ def replay_pairs(recs):
                     continue
                 if not (maxdiff(a, wpv) == 0 and maxdiff(b, wvp) == 0):
                     t.fail("C09|%s|%s|product-differs-from-exact" % (route, order), {"p": p, "v": v, "pv": a, "vp": b, "want": (wpv, wvp)})
+            # the same operands scaled by exact powers of two (norms ~1e-8 and ~1e+8): the products scale exactly, tolerance 0
+            for e_ in (-27, 27):
+                sc = 2.0 ** e_
+                ps, vs = [c * sc for c in p], [c * sc for c in v]
+                for route in ROUTES:
+                    t.calls += 1
+                    try:
+                        a = prod(route, ps, vs, order)
+                    except Exception as e:  # noqa
+                        t.fail("C09|%s|raises-%s|scaled-operands" % (route, type(e).__name__), {"p": ps, "v": vs, "err": str(e)[:200]})
+                        continue
+                    if not maxdiff(a / (sc * sc), wpv) == 0:
+                        t.fail("C09|%s|%s|product-differs-from-exact|operands-of-norm-%s" % (route, order, "1e-8" if e_ < 0 else "1e+8"),
+                               {"p": ps, "v": vs, "got": a, "want": wpv * sc * sc})
             # right operand given as an object stored in `order`
             t.calls += 1
             Vo = nv(v, order)
